@@ -37,7 +37,7 @@ def matern(k, x1, x2):
 
 def rq(k, x1, x2):
     a = k.alpha.detach().reshape(*k.batch_shape, 1, 1)
-    return (1 + _r2(k, x1, x2) / (2 * a)) ** (-a)
+    return torch.exp(-a * torch.log1p(_r2(k, x1, x2) / (2 * a)))  # = (1 + r^2 / (2 alpha))^(-alpha), accurate for every alpha
 
 
 def periodic(k, x1, x2):
